@@ -1,7 +1,7 @@
 (* Prompt.v — model of prompt classification (_determine_current_priv) and of the decision
    obligations of C05.  Definitions only. *)
 From Coq Require Import String.
-From Verif Require Import Bytes Regex RegexDeriv RegexDecide.
+From Verif Require Import Bytes Regex RegexDeriv RegexDecide RegexSearch.
 
 Record level := mkLevel { l_name : string; l_pat : re; l_ncs : list bytes }.
 
@@ -46,13 +46,13 @@ Definition relaxed (Gs : list top) (Rs : list re) : top :=
 (* [G ∧ t] is empty; tried first with the weakened grammar (sound: a superset of G) *)
 (* NB: written with [if], not [||]: vm_compute is call-by-value, [a || b] would run both searches *)
 Definition empty_with (CL : list cset) (atoms : list atom) (fuel : nat) (Gs : list top) (Rs : list re) (t : top) : bool :=
-  if decide_empty CL atoms fuel (TAnd (weaken Gs) t) then true
+  if decide1 CL atoms fuel (TAnd (weaken Gs) t) then true
   else if (match Rs with
            | [] => false
-           | _ => if decide_empty CL atoms fuel (TAnd (weaken Gs) (TNot (t_all (map t_full Rs))))
-                  then decide_empty CL atoms fuel (TAnd (relaxed Gs Rs) t) else false
+           | _ => if decide1 CL atoms fuel (TAnd (weaken Gs) (TNot (t_all (map t_full Rs))))
+                  then decide1 CL atoms fuel (TAnd (relaxed Gs Rs) t) else false
            end) then true
-  else decide_empty CL atoms fuel (TAnd (gtop Gs) t).
+  else decide1 CL atoms fuel (TAnd (gtop Gs) t).
 
 Definition fact_check (CL : list cset) (atoms : list atom) (fuel : nat) (f : fact) : bool :=
   match f with
